@@ -111,7 +111,7 @@ func init() {
 		}
 		driverLoop(rc, r, "C17", "conc", "race", n, nil, "free_running_parses")
 		r.Set("race_detector_reports", races)
-		r.Set("rule", "(i) per grammar (plain and -zip) and per ordered pair (thorough: triple) of inputs - token sequences up to the bound through a scripted scanner and sources through the real generated lexer, succeeding, failing and recovering - two goroutines with their own parser/lexer objects under a cooperative scheduler with yield points at every Scan and every action: all interleavings when there are <= 12 decision points, else all with <= 2 preemptions; every goroutine's result, error text, action calls must equal its sequential run; (ii) the same bodies free-running on 16 goroutines under -race; distinct = input tuples explored per grammar")
+		r.Set("rule", "(i) per grammar (plain and -zip) and per ordered pair (thorough: triple) of inputs - token sequences up to the bound through a scripted scanner and sources through the real generated lexer, succeeding, failing and recovering - two goroutines with their own parser/lexer objects under a cooperative scheduler with yield points at every Scan and every action: all interleavings when there are <= 12 decision points, else all with <= 2 preemptions; every goroutine's result, error text, action calls must equal its sequential run; (ii) the same bodies free-running on 16 goroutines under -race, concurrent phase first (cold caches), half of the goroutines reusing one parser object, plus nesting / right-recursive grammars with inputs 150 and 330 tokens deep (parser stack beyond its initial capacity) and failing sources with lexemes of 41-300 bytes whose errors are rendered; the source bytes every goroutine reads must be unchanged afterwards; distinct = input tuples explored per grammar")
 		r.Assumption("yield points are the parser's call-backs (Scanner.Scan, semantic actions); unsynchronised accesses inside a step are the race pass's subject")
 		return r.Finish(nil)
 	}
